@@ -357,6 +357,7 @@ func (p *Program) ruleCircleConvention(c *Check) {
 		return
 	}
 	before := len(c.Obs)
+	circlesBuilt := 0
 	p.runE8(c, &e8row{id: "geojson.parseJSONFeature#circle", fn: pf, opaque: map[*types.Func]bool{parse: true, newCircle: true},
 		what: "the reader of the Circle convention uses the members the writer emits (properties.type/radius/radius_units), reads \"m\" unscaled and \"km\" times 1000, rejects other units, and centres the circle on the parsed point",
 		spec: func(a *e8assign, n *e8names, out *e8out) string {
@@ -378,6 +379,7 @@ func (p *Program) ruleCircleConvention(c *Check) {
 				}
 			}
 			circles := out.in.called("NewCircle")
+			circlesBuilt += len(circles)
 			if len(circles) == 0 {
 				// completeness: a point feature that carries the convention must be read back as a Circle,
 				// whatever the representation options are (only DisableCircleType may turn this off)
@@ -463,6 +465,11 @@ func (p *Program) ruleCircleConvention(c *Check) {
 		}})
 	for _, o := range c.Obs[before:] {
 		o.Rule = "E6.circle"
+	}
+	if circlesBuilt == 0 {
+		c.Undecided("E6.circle", "geojson.parseJSONFeature#circle-reader-found", p.declPos(pf), "on no abstract run does the Feature parser build a Circle: the reader of the Circle convention is not written in a form the engine can follow (members read through a callback, for instance), so writer/reader agreement is not decided")
+	} else {
+		c.OK("E6.circle", "geojson.parseJSONFeature#circle-reader-found", p.declPos(pf), "the reader of the Circle convention is exercised by the abstract runs")
 	}
 }
 
